@@ -56,20 +56,89 @@ Qed.
 
 (* ---------- single writer ---------- *)
 
+(* facts about the value a call leaves behind *)
+Lemma wlim_le : forall k w, (wlim k w <= k)%nat.
+Proof. intros k [v [j|]]; unfold wlim; cbn [snd]; lia. Qed.
+
+Lemma weff_len : forall k prev w, length prev = k -> length (fst w) = k ->
+  length (weff k prev w) = k.
+Proof.
+  intros k prev w Hp Hv. unfold weff. pose proof (wlim_le k w).
+  rewrite app_length, firstn_length, skipn_length. lia.
+Qed.
+
+Lemma weff_firstn : forall k prev w i, length (fst w) = k -> (i <= wlim k w)%nat ->
+  firstn i (weff k prev w) = firstn i (fst w).
+Proof.
+  intros k prev w i Hv Hi. unfold weff. pose proof (wlim_le k w).
+  rewrite firstn_app, firstn_firstn, firstn_length.
+  replace (Nat.min i (wlim k w)) with i by lia.
+  replace (i - Nat.min (wlim k w) (length (fst w)))%nat with 0%nat by lia.
+  cbn [firstn]. apply app_nil_r.
+Qed.
+
+Lemma weff_nth : forall k prev w i, length (fst w) = k -> (i < wlim k w)%nat ->
+  nth i (weff k prev w) 0 = nth i (fst w) 0.
+Proof.
+  intros k prev w i Hv Hi. unfold weff. pose proof (wlim_le k w).
+  rewrite app_nth1 by (rewrite firstn_length; lia).
+  rewrite <- (firstn_skipn (wlim k w) (fst w)) at 2.
+  rewrite app_nth1 by (rewrite firstn_length; lia). reflexivity.
+Qed.
+
+(* writing the first wlim words of the new value over the old one IS the new value *)
+Lemma weff_done : forall k prev w, length prev = k -> length (fst w) = k ->
+  firstn (wlim k w) (weff k prev w) ++ skipn (wlim k w) prev = weff k prev w.
+Proof.
+  intros k prev w Hp Hv. rewrite weff_firstn by (auto; lia). reflexivity.
+Qed.
+
+Lemma evals_nth : forall k ws prev d w, nth_error ws d = Some w ->
+  nth (S d) (prev :: evals k prev ws) [] = weff k (nth d (prev :: evals k prev ws) []) w.
+Proof.
+  induction ws as [|a ws IH]; intros prev d w H; [destruct d; discriminate|].
+  destruct d as [|d].
+  - cbn in H. inversion H; subst. reflexivity.
+  - cbn [nth_error] in H. cbn [evals]. specialize (IH (weff k prev a) d w H).
+    cbn [nth] in *. exact IH.
+Qed.
+
+Lemma evals_len : forall k ws prev c, length prev = k ->
+  Forall (fun w : wcall => length (fst w) = k) ws -> (c <= length ws)%nat ->
+  length (nth c (prev :: evals k prev ws) []) = k.
+Proof.
+  induction ws as [|a ws IH]; intros prev c Hp Hf Hc.
+  - cbn [length] in Hc. assert (Hc0 : c = 0%nat) by lia. subst c. exact Hp.
+  - inversion Hf; subst. destruct c as [|c]; [exact Hp|].
+    cbn [evals nth]. cbn [length] in Hc.
+    apply (IH (weff k prev a) c); auto; [apply weff_len; auto|lia].
+Qed.
+
+Lemma skipn_cons_nth_error : forall {A} (l : list A) d v q,
+  skipn d l = v :: q -> nth_error l d = Some v /\ skipn (S d) l = q /\ (d < length l)%nat.
+Proof.
+  induction l as [|a l IH]; intros d v q H.
+  - destruct d; discriminate.
+  - destruct d as [|d].
+    + cbn [skipn] in H. inversion H; subst. cbn. repeat split. lia.
+    + cbn [skipn] in H. apply IH in H. destruct H as (H1 & H2 & H3).
+      cbn [nth_error skipn length]. repeat split; auto. lia.
+Qed.
+
 Section Single.
   Variable k : nat.
   Variable init : list N.
-  Variable writes : list (list N).
+  Variable writes : list wcall.
   Hypothesis Hinit : length init = k.
-  Hypothesis Hwrites : Forall (fun v => length v = k) writes.
+  Hypothesis Hwrites : Forall (fun w : wcall => length (fst w) = k) writes.
 
-  Definition val (c : nat) : list N := value init writes c.
+  Definition val (c : nat) : list N := value k init writes c.
 
   Lemma val_len : forall c, (c <= length writes)%nat -> length (val c) = k.
-  Proof.
-    intros [|c] Hc; unfold val, value; cbn [nth]; [exact Hinit|].
-    rewrite Forall_forall in Hwrites. apply Hwrites. apply nth_In. lia.
-  Qed.
+  Proof. intros c Hc. unfold val, value. apply evals_len; auto. Qed.
+
+  Lemma val_succ : forall d w, nth_error writes d = Some w -> val (S d) = weff k (val d) w.
+  Proof. intros d w H. unfold val, value. apply evals_nth. exact H. Qed.
 
   Definition ev_ok (e : event) : Prop :=
     exists c, (e_c0 e <= c <= e_done e)%nat /\ (e_done e <= length writes)%nat /\ e_val e = val c.
@@ -86,7 +155,7 @@ Section Single.
             | 2%nat => firstn (wi w) (val (S (wdone w))) ++ skipn (wi w) (val (wdone w))
             | _ => val (S (wdone w))
             end /\
-    ((wi w < k)%nat \/ wi w = 0%nat).
+    (forall hd q, wq w = hd :: q -> (wi w < wlim k hd)%nat \/ wi w = 0%nat).
 
   Definition cidx (r : rthread) : nat := N.to_nat (rstart r / 2).
 
@@ -128,15 +197,23 @@ Section Single.
   Proof.
     intros s w s' w' (Hlen & Hq & Hpc & Hseq & Hwi & Hne & Hmem & Hik) Hstep.
     unfold wmicro in Hstep.
-    destruct (wq w) as [|v q] eqn:Eq.
-    { inversion Hstep; subst. split; [|lia]. unfold WInv. rewrite Eq. repeat split; auto. }
-    symmetry in Hq. pose proof (skipn_cons_nth _ _ _ _ Hq) as (Hv & Hq' & Hd).
-    assert (Hv' : val (S (wdone w)) = v) by (unfold val, value; cbn [nth]; exact Hv).
+    destruct (wq w) as [|c q] eqn:Eq.
+    { inversion Hstep; subst. split; [|lia]. unfold WInv. rewrite Eq.
+      repeat split; auto. intros; discriminate. }
+    symmetry in Hq. pose proof (skipn_cons_nth_error _ _ _ _ Hq) as (Hv & Hq' & Hd).
+    pose proof (val_succ _ _ Hv) as Hv'.
     assert (Ld : length (val (wdone w)) = k) by (apply val_len; lia).
     assert (Ld' : length (val (S (wdone w))) = k) by (apply val_len; lia).
+    assert (Lc : length (fst c) = k).
+    { rewrite Forall_forall in Hwrites. apply Hwrites. eapply nth_error_In; eauto. }
+    pose proof (wlim_le k c) as Hlim.
+    specialize (Hik c q eq_refl).
     cbn [length] in Hlen.
-    destruct w as [pc i wq0 d]. cbn [wpc wi wq wdone] in *.
-    destruct pc as [|[|[|[|[|pc]]]]]; try lia; cbn -[Nat.ltb N.add N.eqb N.even N.odd] in Hstep.
+    destruct w as [pc i wq0 d pan]. cbn [wpc wi wq wdone wpan] in *.
+    assert (Hnil : forall hd q0, q = hd :: q0 -> (0 < wlim k hd)%nat \/ 0%nat = 0%nat)
+      by (intros; right; reflexivity).
+    destruct pc as [|[|[|[|[|pc]]]]]; try lia;
+      cbn -[Nat.ltb N.add N.eqb N.even N.odd wlim] in Hstep.
     - (* pc 0: fetch_add *)
       inversion Hstep; subst; clear Hstep. split; [|cbn [seq]; lia].
       unfold WInv; cbn [wpc wi wq wdone seq mem Nat.eqb].
@@ -146,34 +223,50 @@ Section Single.
       inversion Hstep; subst; clear Hstep. split; [|lia].
       unfold WInv; cbn [wpc wi wq wdone seq mem Nat.eqb].
       repeat split; auto; try lia; try congruence.
-    - (* pc 2: one word of the closure *)
-      destruct (Nat.ltb_spec (S i) k) as [Hlt|Hge].
-      + inversion Hstep; subst; clear Hstep. split; [|cbn [seq]; lia].
+      intros hd q0 E. inversion E; subst. right; reflexivity.
+    - (* pc 2: one word of the closure (or its panic) *)
+      destruct (Nat.ltb_spec (S i) (wlim k c)) as [Hlt|Hge].
+      + assert (Hi' : (i < wlim k c)%nat) by lia.
+        apply Nat.ltb_lt in Hi'. rewrite Hi' in Hstep. apply Nat.ltb_lt in Hi'.
+        inversion Hstep; subst; clear Hstep. split; [|cbn [seq]; lia].
         unfold WInv; cbn [wpc wi wq wdone seq mem Nat.eqb].
         repeat split; auto; try lia; try congruence.
-        rewrite Hmem, <- Hv'. apply upd_mix; lia.
-      + inversion Hstep; subst; clear Hstep. split; [|cbn [seq]; lia].
-        unfold WInv; cbn [wpc wi wq wdone seq mem Nat.eqb].
+        * rewrite Hmem. rewrite <- (weff_nth k (val d) c i Lc Hi'), <- Hv'.
+          apply upd_mix; lia.
+        * intros hd q0 E. inversion E; subst. left. lia.
+      + assert (Hfin : mem (if Nat.ltb i (wlim k c)
+                            then mkS (seq s) (upd (mem s) i (nth i (fst c) 0)) else s)
+                       = val (S d)).
+        { destruct (Nat.ltb_spec i (wlim k c)) as [Hi'|Hi'].
+          - cbn [mem]. rewrite Hmem. rewrite <- (weff_nth k (val d) c i Lc Hi'), <- Hv'.
+            rewrite upd_mix by lia.
+            assert (HS : S i = wlim k c) by lia. rewrite HS, Hv'.
+            apply weff_done; auto.
+          - assert (i = 0%nat) by (destruct Hik; lia). subst i.
+            assert (Hz : wlim k c = 0%nat) by lia.
+            rewrite Hmem. cbn [firstn skipn app]. rewrite Hv'.
+            rewrite <- (weff_done k (val d) c Ld Lc). rewrite Hz.
+            rewrite Hv' in *. reflexivity. }
+        assert (Hseq' : seq (if Nat.ltb i (wlim k c)
+                             then mkS (seq s) (upd (mem s) i (nth i (fst c) 0)) else s) = seq s)
+          by (destruct (Nat.ltb i (wlim k c)); reflexivity).
+        inversion Hstep; subst; clear Hstep. split; [|rewrite Hseq'; lia].
+        unfold WInv; cbn [wpc wi wq wdone Nat.eqb]. rewrite Hseq', Hfin.
         repeat split; auto; try lia; try congruence.
-        rewrite Hmem.
-        assert (Hc : (i < k)%nat \/ (i = 0%nat /\ k = 0%nat)) by lia.
-        destruct Hc as [Hc|[Hc Hk0]].
-        * rewrite <- Hv' at 1. rewrite upd_mix by lia.
-          assert (HS : S i = k) by lia. rewrite HS.
-          rewrite <- Ld' at 1. rewrite firstn_all.
-          rewrite <- Ld at 1. rewrite skipn_all. apply app_nil_r.
-        * subst i.
-          rewrite (len0_nil (val d)) by lia. rewrite (len0_nil (val (S d))) by lia.
-          reflexivity.
+        intros hd q0 E. right; reflexivity.
     - (* pc 3: fence *)
       inversion Hstep; subst; clear Hstep. split; [|lia].
       unfold WInv; cbn [wpc wi wq wdone seq mem Nat.eqb].
       repeat split; auto; try lia; try congruence.
-    - (* pc 4: fetch_add, write returns *)
-      inversion Hstep; subst; clear Hstep. split; [|cbn [seq]; lia].
+      intros hd q0 E. right; reflexivity.
+    - (* pc 4: closing fetch_add, then WResume: the call returns (or re-raises) *)
+      assert (Hret : (s', w') = (mkS (seq s + 1) (mem s), mkW 0 0 q (S d) false)).
+      { rewrite <- Hstep. destruct pan; reflexivity. }
+      inversion Hret; subst; clear Hstep Hret. split; [|cbn [seq]; lia].
       unfold WInv; cbn [wpc wi wq wdone seq mem Nat.eqb].
       repeat split; auto; try lia; try congruence.
-      cbn [Nat.eqb] in Hseq. lia.
+      * cbn [Nat.eqb] in Hseq. lia.
+      * intros hd q0 E. right; reflexivity.
   Qed.
 
   (* the readers' steps *)
